@@ -108,23 +108,44 @@ def run(ctx, chk):
                         (fi.qualname, f"{m.path}:{fi.node.lineno}", "mutated default argument"))
     chk.floor("C19.scan", nfun, 100, "library functions scanned")
     n_checked = 0
+    # class-level attributes: one finding per (class, writing function) - the call site of the
+    # defect - not per attribute name (renaming an attribute is not a new defect)
+    by_writer = {}
     for key, ws in sorted(writers.items()):
         kind, owner, name = key
+        if kind != "class":
+            continue
+        n_checked += 1
+        ci = ctx.types.class_by_name.get(owner)
+        shadowed = ci is not None and instance_assigned(ci, name)
+        rs = [] if shadowed else [r for r in readers.get(key, [])]
+        wfuncs = sorted({w[0] for w in ws})
+        rfuncs = sorted({r[0] for r in rs} - set(wfuncs))
+        shared = bool(rfuncs or rs)
+        for wf, loc_, how in ws:
+            g = by_writer.setdefault((owner, wf), {"attrs": set(), "readers": set(), "loc": loc_,
+                                                   "how": how, "shared": False, "clean": set()})
+            if shared:
+                g["attrs"].add(name)
+                g["readers"] |= set(rfuncs)
+                g["shared"] = True
+            else:
+                g["clean"].add(name)
+    for (owner, wf), g in sorted(by_writer.items()):
+        construct = f"{owner}: class-level attributes written at run time by {wf}"
+        rd = sorted(g["readers"])
+        detail = (f"{wf} writes {', '.join(sorted(g['attrs']))} ({g['how']} at {g['loc']}); read by "
+                  f"{', '.join(rd[:6])}{' ...' if len(rd) > 6 else ''}: the value set while one "
+                  "environment is built/reset is what every other live environment reads")
+        chk.ob("C19.shared-global", construct, not g["shared"], detail if g["shared"] else
+               f"{wf} writes {', '.join(sorted(g['clean']))}: never read by instance code", g["loc"])
+    for key, ws in sorted(writers.items()):
+        kind, owner, name = key
+        if kind == "class":
+            continue
         n_checked += 1
         wfuncs = sorted({w[0] for w in ws})
-        if kind == "class":
-            ci = ctx.types.class_by_name.get(owner)
-            shadowed = ci is not None and instance_assigned(ci, name)
-            rs = [] if shadowed else [r for r in readers.get(key, [])]
-            rfuncs = sorted({r[0] for r in rs} - set(wfuncs))
-            # instance-shadowed? (self.X = ... in the same class hierarchy shadows the class attr)
-            construct = f"{owner}.{name}: class-level attribute written at run time"
-            detail = (f"written by {', '.join(wfuncs)} ({ws[0][2]} at {ws[0][1]}); read by "
-                      f"{', '.join(rfuncs[:6])}{' ...' if len(rfuncs) > 6 else ''}: the value set "
-                      "while one environment is built/reset is what every other live environment "
-                      "reads")
-            chk.ob("C19.shared-global", construct, not rfuncs and not rs, detail, ws[0][1])
-        elif kind == "module":
+        if kind == "module":
             dom = dominated(repo, key, ws)
             construct = f"{owner}.{name}: module-level object mutated at run time"
             chk.ob("C19.shared-global", construct, dom,
